@@ -98,6 +98,7 @@ class Unit:
         self.assumptions = []
         self.src_cache = {}
         self.props = []
+        self.subst_checks = []
 
     def emit(self, text, region=None):
         if not text.endswith('\n'):
@@ -221,6 +222,17 @@ def apply_sections(unit, text, d, fn_name, what):
             if onames != anames or rp.norm(obody) != rp.norm(am.group(2)):
                 raise AnchorError(f'{what}: annotated closure differs from the original closure {needle!r}')
             edits.append((idx, ('REPL', idx + len(needle), ann)))
+        elif nm == 'subst':
+            # replace an expression by a call of an `idiom_*` helper.  The helper must be an external_body fn of the
+            # unit whose body is, textually, the replaced expression (checked in process() once the unit is complete).
+            needle, occ = _occurrence(s['arg'])
+            idx = _find_text(None, text[fh:fe], needle, occ, what) + fh
+            call = s['text'].strip()
+            mc = re.match(r'^(idiom_\w+)\s*\(', call)
+            if not mc:
+                raise AnchorError(f'{what}: subst replacement must be a call of an idiom_* helper')
+            unit.subst_checks.append((mc.group(1), needle, what))
+            edits.append((idx, ('REPL', idx + len(needle), call)))
         elif nm == 'impl_inject':
             # first '{' of the extracted text at depth 0 that belongs to an impl
             (is_, ih, ie) = next(rp.find_items(text, m, 'impl', None, (0, None), 0))
@@ -261,7 +273,8 @@ def apply_sections(unit, text, d, fn_name, what):
 
 
 def expand_rn(tpl):
-    """template sugar: rn!(a; b; c; tail)  ==>  a + (b + (c + tail))   (right-nested concatenation)"""
+    """template sugar: rn!(a; b; c; tail)  ==>  cat(a, cat(b, cat(c, tail)))   (right-nested concatenation with the
+    opaque `cat` of contracts/text_model.rs)"""
     while True:
         i = tpl.find('rn!(')
         if i < 0:
@@ -273,7 +286,7 @@ def expand_rn(tpl):
         parts = [p for p in parts if p.strip()]
         expr = parts[-1]
         for p in reversed(parts[:-1]):
-            expr = f'{p} + ({expr})'
+            expr = f'cat({p}, {expr})'
         tpl = tpl[:i] + '(' + expr + ')' + tpl[cl + 1:]
 
 
@@ -404,9 +417,20 @@ def process(unit_name, tpl_path=None, out_dir=None):
     tail = tpl[pos:]
     if tail:
         unit.emit(tail)
+    full = ''.join(unit.out)
+    fm = rp.mask(full)
+    for (helper, needle, what) in unit.subst_checks:
+        got = list(rp.find_items(full, fm, 'fn', helper, (0, None), 1))
+        if len(got) != 1:
+            raise AnchorError(f'{what}: subst helper {helper} not found in the unit')
+        (hs, hh, he) = got[0]
+        body = full[hh + 1:he - 1]
+        pre = full[max(0, hs - 200):hh]
+        if 'external_body' not in pre or rp.norm(body) != rp.norm(needle):
+            raise AnchorError(f'{what}: body of {helper} is not the replaced expression `{needle}`')
     out_path = os.path.join(out_dir, unit_name + '.rs')
     with open(out_path, 'w') as f:
-        f.write(''.join(unit.out))
+        f.write(full)
     meta = {'unit': unit_name, 'props': unit.props, 'regions': unit.regions, 'functions': unit.functions,
             'rewrites': [list(r) for r in unit.rewrites], 'generated': out_path}
     with open(os.path.join(out_dir, unit_name + '.map.json'), 'w') as f:
